@@ -29,6 +29,7 @@ type Solver struct {
 	T    time.Duration
 	name string
 	cvc5 bool
+	Broken bool
 }
 
 var SolverCmd = []string{"z3-new", "-in"}
@@ -77,11 +78,13 @@ func (s *Solver) checkT(extra string, ms int) string {
 	s.send("(check-sat)")
 	s.in.Flush()
 	if !s.out.Scan() {
-		panic(engineLimit{"solver died"})
+		s.Broken = true
+		panic(solverBroken{"solver died"})
 	}
 	r := s.out.Text()
 	if strings.HasPrefix(r, "(error") {
-		panic(engineLimit{"solver error: " + r + " on " + trunc(extra, 300)})
+		s.Broken = true
+		panic(solverBroken{"solver error: " + r + " on " + trunc(extra, 300)})
 	}
 	switch r {
 	case "sat":
@@ -359,6 +362,7 @@ type Explorer struct {
 	Samples  []Sample
 	Known    []KnownFinding
 	pcSeen   map[string]bool
+	retries  map[string]int
 
 	FeasMS     int
 	AssertMS   int
@@ -376,6 +380,7 @@ var X *Explorer
 type pathAbort struct{ why string }   // silently drop the path (assume false / infeasible)
 type engineLimit struct{ why string } // path is inconclusive
 type pathDone struct{}                // stop the path after a recorded violation
+type solverBroken struct{ why string } // the solver process lost sync: restart it and retry the path
 
 func NewExplorer(h string) *Explorer {
 	e := &Explorer{S: NewSolver(), Harness: h, FeasMS: 1500, AssertMS: 120000, MaxSteps: 4000000, SampleN: 3, DumpMax: 40}
@@ -386,6 +391,7 @@ func NewExplorer(h string) *Explorer {
 	e.St.InconclWhy = map[string]int{}
 	e.St.Events = map[string]int{}
 	e.pcSeen = map[string]bool{}
+	e.retries = map[string]int{}
 	return e
 }
 
@@ -806,9 +812,24 @@ func (e *Explorer) RunAll(run func(), work [][]int, budget int) [][]int {
 		p := e.Work[len(e.Work)-1]
 		e.Work = e.Work[:len(e.Work)-1]
 		n++
+		if e.S.Broken {
+			e.restartSolver()
+		}
 		e.begin(p)
 		completed := e.runOne(run)
 		SC.killAll()
+		if e.S.Broken {
+			// retry this path (at most twice) on a fresh solver
+			key := fmt.Sprint(p)
+			e.retries[key]++
+			if e.retries[key] <= 2 {
+				e.Work = append(e.Work, p)
+				n--
+				continue
+			}
+			e.inconclusive("solver failed repeatedly on this path")
+			continue
+		}
 		e.end(completed)
 	}
 	e.St.Queries = e.S.N
@@ -858,6 +879,8 @@ func (e *Explorer) runOne(run func()) (completed bool) {
 			return
 		case pathDone:
 			completed = true
+			return
+		case solverBroken:
 			return
 		case engineLimit:
 			e.inconclusive(p.why)
@@ -1089,4 +1112,14 @@ func (e *Explorer) portfolio(extra string) (string, map[string]string) {
 		return "sat", m
 	}
 	return "unknown", nil
+}
+
+
+func (e *Explorer) restartSolver() {
+	old := e.S
+	old.cmd.Process.Kill()
+	old.cmd.Wait()
+	ns := NewSolver()
+	ns.N, ns.Sat, ns.Uns, ns.Unk, ns.T = old.N, old.Sat, old.Uns, old.Unk, old.T
+	e.S = ns
 }
